@@ -366,6 +366,15 @@ def fam_close(rng, n):
         steps += [{"op": "sleep", "ms": 20}, {"op": "close", "from": "main"}, {"op": "wait_closed"}]
         out.append({"name": "close/many_peers_%s" % ("stopped" if stopped else "running"), "conf": conf(),
                     "endpoints": [{"kind": "tcp_server"}], "steps": steps})
+    # Initialize fails at an extra last endpoint (busy port), then it is called again on the same Node value without it
+    for stopped in (False, True):
+        t = Tags(49600)
+        steps = opens(2) + [feed(0, "valid", t.next()), write(1, "MsgAll", t.next(), sync=True), feed(1, "valid", t.next())]
+        if stopped:
+            steps.append({"op": "consumer", "run": False})
+        steps += [{"op": "sleep", "ms": 10}, {"op": "close", "from": "main"}, {"op": "wait_closed"}]
+        out.append({"name": "close/initialize_retried_on_the_same_node_%s" % ("stopped" if stopped else "running"),
+                    "conf": conf(retry_init=True), "endpoints": customs(2) + [{"kind": "tcp_server"}], "steps": steps})
     for mode in ["accept", "refuse", "stall"]:
         steps = [{"op": "sleep", "ms": 30}]
         if mode == "refuse":
@@ -453,6 +462,22 @@ def fam_stall(rng, positions):
             steps.append(write(1, "MsgAll", t.next(), sync=True))
         steps.append({"op": "quiesce", "ms": 1500})
         out.append({"name": "stall/twelve_consecutive_%s_v%d" % (kind, v), "conf": conf(version=v), "endpoints": customs(2), "steps": steps})
+    # failures that go on for longer than the write timeout (300 ms here): 8 failing transport writes / 8 unencodable items
+    # 100 ms apart, then the transport works again and valid writes follow
+    for kind in ["failn", "id_outside"]:
+        t = Tags(68500 + (50 if kind == "failn" else 0))
+        steps = opens(2) + [write(1, "MsgAll", t.next(), sync=True)]
+        if kind == "failn":
+            steps.append({"op": "twrite_mode", "ep": 0, "mode": "failn", "at": 8})
+        for j in range(8):
+            steps.append(write(1, "MsgAll", t.next(), sync=True, bad="" if kind == "failn" else kind))
+            steps.append({"op": "sleep", "ms": 100})
+        steps.append({"op": "sleep", "ms": 100})
+        for j in range(5):
+            steps.append(write(1, "MsgAll", t.next(), sync=True))
+            steps.append({"op": "sleep", "ms": 20})
+        steps.append({"op": "quiesce", "ms": 1500})
+        out.append({"name": "stall/failures_longer_than_write_timeout_%s" % kind, "conf": conf(write_ms=300), "endpoints": customs(2), "steps": steps})
     # no dialect at all: every message write is unencodable for the link
     t = Tags(69000)
     steps = opens(1) + [write(1, "MsgAll", t.next(), sync=True, raw=False, bad="id_outside"), {"op": "sleep", "ms": 100},
@@ -623,7 +648,8 @@ def fam_auto(rng, n, thorough=False):
     out = []
     i = 0
     # heartbeats: configurations
-    for dialect, disable in [("common", False), ("common", True), ("none", False), ("nohb", False), ("fakehb", False), ("no66", False)]:
+    for dialect, disable in [("common", False), ("common", True), ("none", False), ("nohb", False), ("fakehb", False), ("no66", False),
+                             ("common_rev", False)]:
         for period in ([20] if not thorough else [20, 50]):
             k = rng.randint(1, 3)
             c = conf(dialect=dialect, hb_disable=disable, hb_period_ms=period, hb_systype=rng.choice([0, 2, 13]),
@@ -665,7 +691,7 @@ def fam_auto(rng, n, thorough=False):
     for j in range(n):
         t = Tags(90000 + 1000 * j)
         k = rng.randint(1, 3)
-        dialect = rng.choice(["common", "common", "common", "no66", "nohb"])
+        dialect = rng.choice(["common", "common_rev", "common_sr_first", "no66", "nohb"])
         enable = rng.random() < 0.8
         c = conf(dialect=dialect, sr_enable=enable, sr_freq=rng.choice([0, 1, 50]))
         steps = opens(k)
@@ -776,7 +802,7 @@ def _legacy_some(fam, every=3):
     def wrapped(*a, **kw):
         out = fam(*a, **kw)
         for i, sc in enumerate(out):
-            if i % every == every - 1 and not any(s["op"] == "hold_at_start" for s in sc["steps"]):
+            if i % every == every - 1 and not sc["conf"].get("retry_init") and not any(s["op"] == "hold_at_start" for s in sc["steps"]):
                 sc["conf"] = dict(sc["conf"], legacy_ctor=True)
         return out
     wrapped.__doc__ = fam.__doc__
